@@ -793,6 +793,10 @@ func runCheck(e Engine, tier string, seed uint64, workers int, runsOverride int,
 		fmt.Printf("VIOLATION property=%s replay=%s\n", e.ID(), v.Replay)
 		status = 1
 	}
+	if len(crashed) > 1 {
+		fmt.Printf("  (%d workers crashed; reporting the first)\n", len(crashed))
+		crashed = crashed[:1]
+	}
 	for _, cr := range crashed {
 		detail := cr.out
 		if i := strings.Index(detail, "fatal error:"); i >= 0 {
